@@ -328,7 +328,8 @@ func C09(c *core.Ctx) {
 			s.MemTable = 24 << 10
 			if mode == "manifest" {
 				s.KillClass = "fs.append.MANIFEST"
-				s.KillAt = int64(3 + ci)
+				s.KillAt = int64(2 + ci)
+				s.MemTable = 8 << 10 // enough flushes for the chosen append to happen in every configuration
 			}
 			writeSpec(s, sp)
 			out, timedOut, _ := runChild(120*time.Second, nil, c.ID, "--child-crash", sp)
